@@ -2672,13 +2672,9 @@ impl Server {
                     );
                 }
 
-                {
-                    let mut sessions = self.sessions.borrow_mut();
-                    if sessions.slab.contains(token.0) {
-                        sessions.slab.remove(token.0);
-                        info!("removed listen token {:?}", token);
-                    }
-                }
+                // the listener keeps its token in the proxy and can be activated
+                // again: its slab entry stays until RemoveListener
+                debug!("deactivated listen token {:?}", token);
 
                 if deactivate.to_scm {
                     self.unblock_scm_socket();
@@ -2719,10 +2715,9 @@ impl Server {
                         deactivate, e
                     );
                 }
-                if self.sessions.borrow().slab.contains(token.0) {
-                    self.sessions.borrow_mut().slab.remove(token.0);
-                    info!("removed listen token {:?}", token);
-                }
+                // the listener keeps its token in the proxy and can be activated
+                // again: its slab entry stays until RemoveListener
+                debug!("deactivated listen token {:?}", token);
 
                 if deactivate.to_scm {
                     self.unblock_scm_socket();
@@ -2761,10 +2756,9 @@ impl Server {
                         deactivate, e
                     );
                 }
-                if self.sessions.borrow().slab.contains(token.0) {
-                    self.sessions.borrow_mut().slab.remove(token.0);
-                    info!("removed listen token {:?}", token);
-                }
+                // the listener keeps its token in the proxy and can be activated
+                // again: its slab entry stays until RemoveListener
+                debug!("deactivated listen token {:?}", token);
 
                 if deactivate.to_scm {
                     self.unblock_scm_socket();
@@ -2803,10 +2797,9 @@ impl Server {
                         deactivate, e
                     );
                 }
-                if self.sessions.borrow().slab.contains(token.0) {
-                    self.sessions.borrow_mut().slab.remove(token.0);
-                    info!("removed listen token {:?}", token);
-                }
+                // the listener keeps its token in the proxy and can be activated
+                // again: its slab entry stays until RemoveListener
+                debug!("deactivated listen token {:?}", token);
 
                 if deactivate.to_scm {
                     self.unblock_scm_socket();
